@@ -306,7 +306,7 @@ where
         });
     }
 
-    let original = original.into_iter();
+    let mut original = original.into_iter();
     let mut recovery = recovery.into_iter();
 
     let (shard_bytes, first_recovery) = if let Some(first_recovery) = recovery.next() {
@@ -314,17 +314,29 @@ where
     } else {
         // NO RECOVERY SHARDS
 
-        let original_received_count = original.count();
-        if original_received_count == original_count {
-            // Nothing to do, original data is complete.
-            return Ok(HashMap::new());
+        // Original shards must still be validated, so take
+        // the shard size from the first original shard.
+        let Some(first_original) = original.next() else {
+            return Err(Error::NotEnoughShards {
+                original_count,
+                original_received_count: 0,
+                recovery_received_count: 0,
+            });
+        };
+
+        let shard_bytes = first_original.1.as_ref().len();
+        let mut decoder = ReedSolomonDecoder::new(original_count, recovery_count, shard_bytes)?;
+
+        decoder.add_original_shard(first_original.0, first_original.1)?;
+        for (index, original) in original {
+            decoder.add_original_shard(index, original)?;
         }
 
-        return Err(Error::NotEnoughShards {
-            original_count,
-            original_received_count,
-            recovery_received_count: 0,
-        });
+        // Either all original shards were given and there is nothing
+        // to restore, or this returns `Error::NotEnoughShards`.
+        decoder.decode()?;
+
+        return Ok(HashMap::new());
     };
 
     let mut decoder = ReedSolomonDecoder::new(original_count, recovery_count, shard_bytes)?;
